@@ -46,6 +46,9 @@ func main() {
 		if r.Want("orphans") {
 			orphans(r)
 		}
+		if r.Want("renewal") {
+			renewal(r)
+		}
 		if r.Want("purge-refused") {
 			purgeRefused(r)
 		}
